@@ -588,6 +588,13 @@ def l14(ctx, rid):
         raise core.AnchorLost('moves of the observer state: %d' % n)
 
 
+def l15(ctx, rid):
+    """a failed blob creation consumes its id: the retry triggered by the next write uses the next name (C07.H6 instances - the
+    counter is never decreased)"""
+    import props.c07 as c07
+    c07.h6(ctx, rid)
+
+
 RULES = [
     Rule('C13.L1', 'the worker loop is only left through the Stop arm (recv() == None) and contains no reachable panic written in the worker module', l1, 4),
     Rule('C13.L3', 'one channel, Sender never cloned, stored only in the Running state, dropped before the worker handle is awaited', l3, 4),
@@ -601,5 +608,6 @@ RULES = [
     Rule('C13.L12', 'the worker skips starting a background task only while one is really running (decided by JoinHandle::is_finished)', l12, 2),
     Rule('C13.L13', 'filters of different shape are never merged on the worker path (C10.B10 instances: the merge would panic inside the worker)', l13, 2),
     Rule('C13.L14', 'a state transition of the observer never drops a Running state (its Sender) on a returning path', l14, 1),
+    Rule('C13.L15', 'the blob id counter is never given back: a creation failure bound to one file name cannot repeat for ever (C07.H6 instances)', l15, 3),
     Rule('C13.L8', 'request-pending / in-progress flags are released on every path of their handler (C12.S8 instances)', l8, 1),
 ]
